@@ -285,8 +285,14 @@ def _check_piece(spec, q, zero, dbl, prec, W, overflow, data, pos, rx):
         da = len(fp)
         digits = (ip if db else b'') + fp
         if not digits:
-            # no digit positions (the only one went to the sign): nothing but E+dd is shown; the exponent of
-            # a mantissa-less number is not checked (the code documents " E+01" for 1 as GW-BASIC's output)
+            # no digit positions (the only one went to the sign): nothing but E+dd is shown; by the code
+            # (C08_no_digit_exponent) dd = number of divisions by ten that bring the value below 1: the
+            # count of integer digits for |x| >= 1 (" E+01" for 1, documented as GW-BASIC's output; one less
+            # is tolerated at powers of ten, where the division is inexact), 0 for |x| < 1
+            nint = floor_log10(q) + 1 if q >= 1 else 0
+            if expo != nint and not (q >= 1 and expo == nint - 1 and sig_digits(q) == 1):
+                raise Mismatch('field %r value %s: exponent %d, the value has %d integer digits'
+                               % (spec.text, float(q), expo, nint))
             return end, 'nodigits'
         if digits[:1] == b'0':
             raise Mismatch('field %r value %s: mantissa %r not normalised' % (spec.text, float(q), mo.group(0)))
@@ -429,21 +435,25 @@ class C08(core.Check):
     TRUSTED = ['hand model model/Using.v of formatter.py (StringField/NumberField scanners and format, '
                '_print_using) and of numbers.Float.to_str_fixed/to_str_scientific/_group_thousands/'
                '_scientific_notation/_decimal_notation/_get_digits, tied by correspondence on the bytes a real '
-               'Session writes for PRINT#1,USING (file) and PRINT USING (screen); the digit limit and error '
-               'numbers are regenerated (gen_using)',
-               'binary->decimal conversion Float.to_decimal(n) is an INPUT of the model: the harness calls the '
-               'repository function on the same value for n = 0..7/16 and passes the (mantissa, exponent) table '
-               '(its accuracy is property C07); the oracle re-checks the printed digits against an exact '
-               'Fraction reference without using it',
+               'Session writes for PRINT#1,USING (file) and PRINT USING (screen); the digit limit, error '
+               'numbers and the rounding/carry arithmetic are regenerated (gen_using)',
+               'Float.to_decimal is no longer an input: model/UsingDec.v computes it from the MBF bytes of the '
+               'value with the regenerated core of property C07 (gen/Gen_dec.v mbf_to_decimal_core, mbf_iabs) '
+               'and the limit byte strings of every precision dumped by gen_using from the repository\'s '
+               'from_int/_just_under; which limits belong to which precision (the three-way branch of '
+               'to_decimal) is checked on the AST and by correspondence',
                'the while-loop of _print_using is modelled as tokenisation followed by passes; expression '
-               'evaluation order/laziness of the value list and the type check of the format expression are '
-               'outside the model']
-    PARTIAL = ('the clause "digits equal the value rounded to the field\'s decimal places" is proved relative to '
-               'the (mantissa, exponent) delivered by Float.to_decimal (C08_digits_fixed/_scientific: the number '
-               'shown is exactly mantissa*10^exponent at the working precision the code asks for); that '
-               'to_decimal rounds the binary value correctly is not proved here (C07) and is tested by the '
-               'oracle: exact equality with round-half-away for values with a short exact decimal expansion, '
-               'half a unit of the last place + one unit of the 7th/16th significant digit otherwise')
+               'evaluation order/laziness of the value list, the type check of the format expression and '
+               'to_float() of integer values are outside the model (the harness passes the bytes of '
+               'value.to_float())']
+    PARTIAL = ('the clause "digits equal the value rounded to the field\'s decimal places" is proved outright '
+               'for integer-valued numbers below 10^7/10^16 in every fixed-point field (C08_int_fixed_exact, '
+               'to_decimal computed from the bytes) and, for all (mantissa, exponent) pairs, for the '
+               'arithmetic to_str_fixed/to_str_scientific do themselves (C08_fixed_rounding, C08_round_small, '
+               'C08_sci_pair); for non-integer values it remains relative to the result of Float.to_decimal, '
+               'whose accumulated error bound is open in C07 (C08_digits_statement is kept unproved); the '
+               'oracle tests it: exact equality with round-half-away for values with a short exact decimal '
+               'expansion, half a unit of the last place + one unit of the 7th/16th significant digit otherwise')
     RULE = ('every case is one PRINT#1,USING F$;values (bytes appended to a real disk file) or PRINT USING '
             '(screen text) statement in a Session with the format string and the values set as variables '
             '(integers, exactly representable singles and doubles, byte strings); output bytes + error number '
